@@ -166,3 +166,68 @@ func VH_c01_server_addpath() {
 		vReach("advertised")
 	}
 }
+
+// C01 (flaps): announcements and withdrawals from two eBGP sources interleaved with the loss of a
+// source's session and a flap (down, then up with the initial table transfer) of the target's
+// session. The target's view is reset when its session ends. At quiescence the view equals the
+// export of the best path, and nothing of a source whose session has ended is in the Loc-RIB.
+func VH_c01_server_flaps() {
+	fams := []bgp.Family{bgp.RF_IPv4_UC}
+	s := vServer(65000, fams)
+	a := vEstablished(s, vNeighbor(2, 65001, 65000, fams), fams)
+	b := vEstablished(s, vNeighbor(3, 65002, 65000, fams), fams)
+	t := vEstablished(s, vNeighbor(4, 65003, 65000, fams), fams)
+	prefix := vPrefix4(10, 1, 0, 0, 16)
+	view := c01view{}
+	aUp, tUp := true, true
+	steps := vParam("steps")
+	for i := 0; i < steps; i++ {
+		switch vChoice("event", 6) {
+		case 0:
+			x := vU32("as") // may be the target's AS (not exportable to it) or the local AS (loop)
+			vAssume(x != 0)
+			vRecv(s, a, vUpdate4(prefix, false, []uint32{65001, x}, vAddr4(10, 0, 0, 2)), int64(10+i))
+		case 1:
+			vRecv(s, a, vUpdate4(prefix, true, nil, vAddr4(10, 0, 0, 2)), int64(10+i))
+		case 2:
+			vRecv(s, b, vUpdate4(prefix, false, []uint32{65002}, vAddr4(10, 0, 0, 3)), int64(10+i))
+		case 3:
+			vRecv(s, b, vUpdate4(prefix, true, nil, vAddr4(10, 0, 0, 3)), int64(10+i))
+		case 4: // the session with source A is lost for good
+			vAssume(aUp)
+			vTransition(s, a, bgp.BGP_FSM_IDLE, fsmReadFailed)
+			aUp = false
+		default: // the target's session flaps
+			vAssume(tUp || true)
+			vTransition(s, t, bgp.BGP_FSM_IDLE, fsmReadFailed)
+			view = c01view{} // the peer forgets everything it was told on the old session
+			for t.fsm.outgoingCh.Len() > 0 {
+				<-t.fsm.outgoingCh.Out()
+			}
+			t.fsm.conn = newVConn(nil, true)
+			vTransition(s, t, bgp.BGP_FSM_ESTABLISHED, fsmOpenMsgNegotiated)
+		}
+		c01drain(t, &view, prefix.String())
+		for _, p := range []*peer{a, b} {
+			for p.fsm.outgoingCh.Len() > 0 {
+				<-p.fsm.outgoingCh.Out()
+			}
+		}
+	}
+	var best *table.Path
+	for _, p := range s.globalRib.GetPathList(table.GLOBAL_RIB_NAME, 0, fams) {
+		vAssert(aUp || p.GetSource().Address != vAddr4(10, 0, 0, 2), "a route of a session that has ended is still in the Loc-RIB")
+	}
+	if l := s.globalRib.GetBestPathList(table.GLOBAL_RIB_NAME, 0, fams); len(l) > 0 {
+		best = l[0]
+	}
+	want := best != nil && !slices.Contains(best.GetAsList(), 65003)
+	vAssert(view.have == want, "after flaps the peer's view differs from the export of the current best path (stale or missing route)")
+	if want && view.have {
+		vAssert(view.path.GetSource() == best.GetSource(), "after flaps the route the peer holds is not the current best path")
+		vReach("advertised")
+	}
+	if !aUp {
+		vReach("source_lost")
+	}
+}
